@@ -59,6 +59,15 @@ fn fmt(v: f64) -> String {
     }
 }
 
+fn fmt_axis(v: f64, style: usize) -> String {
+    match style {
+        0 => format!("{:.1}", v),
+        1 => format!("{:.3}", v),
+        2 => format!("{:e}", v),
+        _ => fmt(v),
+    }
+}
+
 fn gen_urdf(rng: &mut Rng) -> Gen {
     let mut features = vec![];
     let z = |rng: &mut Rng, v: f64| if rng.bool(0.25) { 0.0 } else { v };
@@ -69,8 +78,10 @@ fn gen_urdf(rng: &mut Rng) -> Gen {
     let b = if rng.bool(0.5) { 0.0 } else { bv };
     let c1v = mm(rng, 0.1, 1.0);
     let c1 = z(rng, c1v);
-    let c2 = mm(rng, 0.2, 1.0).max(0.001);
-    let c3 = mm(rng, 0.2, 1.0).max(0.001);
+    // (an eighth of the link lengths c2 / c3 is negative: the same layouts drawn towards the other side)
+    let c2 = mm(rng, 0.2, 1.0).max(0.001) * if rng.bool(0.125) { -1.0 } else { 1.0 };
+    let c3 = mm(rng, 0.2, 1.0).max(0.001) * if rng.bool(0.125) { -1.0 } else { 1.0 };
+    let negative_c = c2 < 0.0 || c3 < 0.0;
     let c4v = mm(rng, 0.02, 0.4);
     let c4 = z(rng, c4v);
     let c3_on_j4 = rng.bool(0.4);
@@ -144,6 +155,8 @@ fn gen_urdf(rng: &mut Rng) -> Gen {
         }
         let mut ax = [0.0f64; 3];
         ax[axis_comp[j]] = signs[j] as f64;
+        // axis components are written as integers ("0 0 1") or as reals ("0.0 0.0 1.0", "-1.000", "1e0")
+        let axis_style = rng.usize(5);
         let lim_kind = rng.usize(5);
         let limit_xml = match lim_kind {
             0 => {
@@ -184,7 +197,7 @@ fn gen_urdf(rng: &mut Rng) -> Gen {
         let jtype = if !limited[j] { "continuous" } else { "revolute" };
         joint_xml.push(format!(
             "    <joint name=\"{}\" type=\"{}\">\n      <origin xyz=\"{} {} {}\" rpy=\"0 0 0\"/>\n      <parent link=\"l{}\"/>\n      <child link=\"l{}\"/>\n      <axis xyz=\"{} {} {}\"/>\n{}    </joint>\n",
-            names[j], jtype, fmt(o[0]), fmt(o[1]), fmt(o[2]), j, j + 1, fmt(ax[0]), fmt(ax[1]), fmt(ax[2]), limit_xml
+            names[j], jtype, fmt(o[0]), fmt(o[1]), fmt(o[2]), j, j + 1, fmt_axis(ax[0], axis_style), fmt_axis(ax[1], axis_style), fmt_axis(ax[2], axis_style), limit_xml
         ));
     }
     // extra fixed joints that must be ignored
@@ -240,6 +253,9 @@ fn gen_urdf(rng: &mut Rng) -> Gen {
         body.push_str(&format!("  </{}>\n", t));
     }
     let text = format!("<?xml version=\"1.0\"?>\n<robot name=\"generated\" xmlns:xacro=\"http://ros.org/wiki/xacro\">\n  <!-- generated by the C20 monitor -->\n{}</robot>\n", body);
+    if negative_c {
+        features.push("negative_c2_or_c3".to_string());
+    }
     Gen { a1, a2, b, c1, c2, c3, c4, signs, from, to, limited, names, explicit, text, features }
 }
 
